@@ -67,7 +67,7 @@ def _positions(case, which='pos', shift=None, dtype=np.float32):
     return x.astype(dtype)
 
 
-def _call(ps, case, pos, w, nthread, pos2=None, w2=None):
+def _call(ps, case, pos, w, nthread, pos2=None, w2=None, alias=False):
     dt = np.float32 if case['dtype'] == 'f4' else np.float64
     kny = np.pi * case['nmesh'] / case['L']
     kbins, mubins = case['kbins'], case['mubins']
@@ -76,11 +76,24 @@ def _call(ps, case, pos, w, nthread, pos2=None, w2=None):
     if mubins == 'array':
         mubins = np.array([0.0, 0.3, 0.55, 1.0])
     kmax = None if case.get('k_max_frac') is None else case['k_max_frac'] * kny
-    return ps.calc_power(pos.copy(), case['L'], kbins=kbins, mubins=mubins, k_max=kmax, logk=case['logk'],
+    cp = (lambda a: a) if alias else (lambda a: a.copy())
+    return ps.calc_power(cp(pos), case['L'], kbins=kbins, mubins=mubins, k_max=kmax, logk=case['logk'],
                          paste=case['paste'], nmesh=case['nmesh'], compensated=case['compensated'],
-                         interlaced=case['interlaced'], w=None if w is None else w.copy(),
-                         pos2=None if pos2 is None else pos2.copy(), w2=None if w2 is None else w2.copy(),
+                         interlaced=case['interlaced'], w=None if w is None else cp(w),
+                         pos2=None if pos2 is None else cp(pos2), w2=None if w2 is None else cp(w2),
                          poles=case['poles'], nthread=nthread, dtype=dt)
+
+
+def _alias_call(ps, case, pos, w, out):
+    """The same array object as first and second field (what `calc_power(pos, L, pos2=pos)` does); the
+    caller's in-range positions must also come back unmodified."""
+    p = pos.copy()
+    keep = p.copy()
+    ww = None if w is None else w.copy()
+    res = _call(ps, case, p, ww, case['T1'], pos2=p, w2=ww, alias=True)
+    if not np.array_equal(np.asarray(p), keep):
+        violation(out, 'input-positions-modified', 'calc_power[sim]', {'max_shift': float(np.abs(np.asarray(p) - keep).max())})
+    return res
 
 
 FLOAT_COLS = ('power', 'poles', 'k_avg')
@@ -156,6 +169,7 @@ def run(case):
         'translation': lambda: _call(ps, case, _positions(case, shift=case['shift'], dtype=pdt), w, case['T1']),
         'thread-count': lambda: _call(ps, case, pos, w, case['T2']),
         'cross=auto': lambda: _call(ps, case, pos, w, case['T1'], pos2=pos, w2=w),
+        'cross=auto(same-array-object)': lambda: _alias_call(ps, case, pos, w, out),
     }
     for k, (label, fn) in enumerate(runs.items()):
         s2 = dict(s, seed=s.get('seed', 0) + k + 1)
